@@ -2,9 +2,24 @@ import HappyProofs.C11.Witness
 import HappyProofs.C11.Election
 import HappyProofs.C11.ApplyOrder
 import HappyProofs.C11.LogMatching
+import HappyProofs.C11.ApplyAgree
+import HappyProofs.C11.SubmitRun
+import HappyProofs.C11.Completeness
 /-! C11 — property theorems: statements about the `Spec` predicates on the frames of model runs.
-    The general theorems (`election_safety`, `log_matching`, `apply_in_order_no_gaps`) live next to
-    their invariants; here they are instantiated for the repaired code and shown non-vacuous. -/
+
+General theorems live next to their invariants (quantified over the repair flags they need):
+
+* `election_safety`            (Election.lean)     needs `keepVote`   (repair D1)
+* `log_matching`               (LogMatching.lean)  needs `keepVote`
+* `apply_in_order_no_gaps`     (ApplyOrder.lean)   every variant
+* `apply_from_log`             (ApplyAgree.lean)   every variant
+* `submit_resolves_own_command`(SubmitRun.lean)    needs `dropPending` (repair D4), fresh futures
+* `commit_monotone_partial`    (CommitMono.lean)   every variant, per step, modulo committed conflicts
+* `state_machine_safety_partial` (ApplyAgree.lean) every variant, modulo `commitAgreeOk`
+* `leader_completeness_partial`  (Completeness.lean) the commit rule
+
+Here they are instantiated for the repaired code and shown non-vacuous; the witnesses for the
+pinned code are in Witness.lean. -/
 namespace HappyModel.C11
 open Spec
 
@@ -20,19 +35,51 @@ theorem log_matching_repaired (n : Nat) (as : List Act) : logMatchingOk (frames 
   log_matching Variant.repaired rfl n as
 
 /-- a run in which logs really diverge and are repaired: leader 0 (term 1) takes c1 alone, leader 2
-    (term 2) takes c2 and replicates it over 0's conflicting entry -/
+    (term 2) takes c2 and replicates it over 0's conflicting entry; c2 commits and is applied -/
 def divergeRun : List Act :=
   [ .timeout 0, .deliver 0, .deliver 2,                       -- 0 leads term 1 (vote of 1)
     .submit 0 0 ⟨1, 0, 0, 1, none⟩,                           -- c1 at index 1 of node 0
     .timeout 2, .timeout 2, .deliver 8, .deliver 9,           -- 2 leads term 2 (vote of 1)
     .submit 2 1 ⟨2, 0, 0, 7, none⟩,                           -- c2 at index 1 of node 2
-    .heartbeat 2, .deliver 12 ]                               -- AppendEntries(c2) reaches node 0
+    .heartbeat 2, .deliver 12, .deliver 14 ]                  -- AppendEntries(c2) reaches node 0; its ack commits c2
 
 example : ((frames Variant.repaired 3 divergeRun).map (fun f => f.views.map (·.log))).getLast? =
     some [[(2, 2)], [], [(2, 2)]] := by decide
 
-/-- each node applies indices 1, 2, 3, … — every variant -/
+/-- each node applies indices 1, 2, 3, … — repaired code (holds for every variant) -/
 theorem apply_in_order_no_gaps_repaired (n : Nat) (as : List Act) : applyOrderOk (frames Variant.repaired n as) = true :=
   apply_in_order_no_gaps Variant.repaired n as
+
+theorem apply_from_log_repaired (n : Nat) (as : List Act) : applyFromLogOk (frames Variant.repaired n as) = true :=
+  apply_from_log Variant.repaired n as
+
+/-- non-vacuity: in `divergeRun` node 2 applies command 2 at index 1 and resolves future 1 with it -/
+example : (allApps (frames Variant.repaired 3 divergeRun), (frames Variant.repaired 3 divergeRun).flatMap (·.ress))
+    = ([(2, 1, 2)], [(2, 1, 1)]) := by decide
+
+/-- submit futures resolve only with their own command's index — repaired code -/
+theorem submit_resolves_own_command_repaired (n : Nat) (as : List Act) (hf : FreshFutures as) :
+    submitOk (frames Variant.repaired n as) = true :=
+  submit_resolves_own_command Variant.repaired rfl n as hf
+
+example : FreshFutures divergeRun := by unfold FreshFutures; decide
+
+/-- state-machine safety for the repaired code, reduced to agreement of committed entries -/
+theorem state_machine_safety_partial_repaired (n : Nat) (as : List Act)
+    (hc : commitAgreeOk (frames Variant.repaired n as) = true) : applyAgreeOk (frames Variant.repaired n as) = true :=
+  state_machine_safety_partial Variant.repaired n as hc
+
+example : commitAgreeOk (frames Variant.repaired 3 divergeRun) = true := by decide
+
+/-- the hypothesis of `commit_monotone_partial` is not vacuous: no delivery of `divergeRun` conflicts
+    with a committed entry, although one of them truncates node 0's log -/
+example : ¬ conflictBelowCommit (run Variant.repaired (init 3) (divergeRun.take 10)) (.deliver 12) := by
+  have hm : findMsg (run Variant.repaired (init 3) (divergeRun.take 10)) 12
+      = some ⟨12, 2, 0, .ae 2 2 0 0 [⟨2, ⟨2, 0, 0, 7, none⟩⟩] 0⟩ := by decide
+  have hc : ((run Variant.repaired (init 3) (divergeRun.take 10)).nodes 0).commit = 0 := by decide
+  simp only [conflictBelowCommit, hm]
+  intro h; apply h
+  intro j _ hle
+  rw [hc] at hle; omega
 
 end HappyModel.C11
